@@ -40,6 +40,9 @@ type Generator struct {
 	warner     func(string)
 	formatters []formatter
 	loader     schemas.Loader
+
+	// typeNesting counts the generateTypeInline calls in progress, see maxTypeNesting.
+	typeNesting int
 }
 
 type qualifiedDefinition struct {
